@@ -7,7 +7,7 @@ import ast
 from ..core import astutil as A
 from ..core.index import AnalysisError
 from ..selftest import M
-from .common import (BASE_COMPILER, T, attr_stores, calls_named, conds, entails, every_origin, facts, has_fact, key,
+from .common import (BASE_COMPILER, may_conds, T, attr_stores, calls_named, conds, entails, every_origin, facts, has_fact, key,
                      need, where)
 
 PRE = "ufo2ft.preProcessor"
@@ -23,6 +23,7 @@ def run(prog, chk):
         "interpolatable decomposition first defines the composite at the locations of the transitive closure of the glyphs it inlines (R13.5)",
         "argument beats lib: every assignment of the compiler's skipExportGlyphs from a UFO / designspace lib is guarded by 'is None' (R13.3)",
         "kerning groups are intersected with the (filtered) glyph set and every recorded pair has each side either a known group or a glyph of the glyph set; GDEF classes are restricted to the ordered glyph set; writers take the glyph set from the compiler (R13.4)",
+        "the kern writers' mark filtering set only lists exported glyphs, and the IgnoreMarks / filtering-set decision is made on the members of that set (R13.7)",
     ]
     chk.not_decided += ["that the remaining glyphs render identically (decomposition arithmetic is fontTools')"]
     chk.guard(r131, prog, chk)
@@ -32,6 +33,7 @@ def run(prog, chk):
     chk.guard(r135, prog, chk, "R13.5")
     from .c15 import check_single_decomposer
     chk.guard(check_single_decomposer, prog, chk, "R13.6")
+    chk.guard(r137, prog, chk)
 
 
 # ----------------------------------------------------------------------------- R13.1
@@ -431,7 +433,16 @@ def r134(prog, chk):
     ok = bool(ctor) and all(A.kwarg(c, "glyphSet") is not None and T(A.kwarg(c, "glyphSet")) == "glyphSet" for c in ctor)
     chk.ob("R13.4", key(cf, "feature compiler receives glyphSet"), ok, where(cf), detail="featureCompilerClass(..., glyphSet=glyphSet)",
            message="compileFeatures does not hand the pre-processed glyph set to the feature compiler")
-    chk.minimum("R13.4", 14)
+    # scripts are guessed from the code points of exported glyphs only
+    gs = ix.get_method("ufo2ft.featureWriters.baseFeatureWriter.BaseFeatureWriter", "guessFontScripts", own=True)
+    cl = [c for c in calls_named(gs, "unicodeScriptExtensions")]
+    need(cl, f"cannot interpret {gs.short}: no script classification of code points")
+    for c in cl:
+        fs = facts(prog, gs, c)
+        ok = any(o == "in" and l.endswith(".name") and any(isinstance(n_, ast.Name) and n_.id == r and _glyphset_origin(prog, gs, n_) for n_ in ast.walk(gs.node)) for o, l, r in fs)
+        chk.ob("R13.4", key(gs, "scripts are guessed from exported glyphs only"), ok, where(gs, c), detail="glyph.name in glyphSet on every path to unicodeScriptExtensions",
+               message=f"{gs.short}: code points of glyphs outside the writer's glyph set (skipped glyphs) take part in guessing the font's scripts")
+    chk.minimum("R13.4", 15)
 
 
 def _restricted_to_ordered(prog, fi, e) -> bool:
@@ -445,7 +456,123 @@ def _restricted_to_ordered(prog, fi, e) -> bool:
     return False
 
 
+
+# ----------------------------------------------------------------------------- R13.7
+def _mentions_glyphset(prog, fi, e) -> bool:
+    for n in ast.walk(e):
+        if isinstance(n, ast.Attribute) and n.attr == "glyphSet":
+            return True
+        if isinstance(n, ast.Name) and _glyphset_origin(prog, fi, n):
+            return True
+    return False
+
+
+def _restricted_to_glyphset(prog, fi, e, depth=0) -> bool:
+    """e denotes glyph names that are all members of the writer's (exported) glyph set."""
+    if depth > 6:
+        return False
+    if isinstance(e, (ast.List, ast.Tuple, ast.Set)) and not e.elts:
+        return True
+    if isinstance(e, ast.BinOp) and isinstance(e.op, ast.BitAnd):
+        return _mentions_glyphset(prog, fi, e.left) or _mentions_glyphset(prog, fi, e.right) \
+            or _restricted_to_glyphset(prog, fi, e.left, depth + 1) or _restricted_to_glyphset(prog, fi, e.right, depth + 1)
+    if isinstance(e, ast.Call):
+        cn = A.callee_name(e)
+        if cn in ("set", "list", "sorted", "tuple", "frozenset") and e.args:
+            return _restricted_to_glyphset(prog, fi, e.args[0], depth + 1)
+        if cn and "spacingmarks" in cn.lower().replace("_", "") and e.args:
+            # the helper returns a sub-list of its last argument
+            return _restricted_to_glyphset(prog, fi, e.args[-1], depth + 1)
+        if cn == "intersection" and isinstance(e.func, ast.Attribute):
+            return any(_mentions_glyphset(prog, fi, a) for a in e.args) or _mentions_glyphset(prog, fi, e.func.value)
+        return False
+    if isinstance(e, (ast.ListComp, ast.SetComp, ast.GeneratorExp)) and len(e.generators) == 1:
+        g = e.generators[0]
+        tn = A.target_names(g.target)
+        if T(e.elt) in tn:
+            for c in g.ifs:
+                pp = A.compare_parts(c)
+                if pp and isinstance(pp[1], ast.In) and T(pp[0]) == T(e.elt) and _mentions_glyphset(prog, fi, pp[2]):
+                    return True
+            return _restricted_to_glyphset(prog, fi, g.iter, depth + 1)
+        return False
+    if isinstance(e, ast.Name):
+        ds = prog.reaching(fi, e.id, e)
+        if not ds:
+            return False
+        for d in ds:
+            v, how = d.element()
+            if v is None or how is not None:
+                return False
+            if not _restricted_to_glyphset(prog, fi, v, depth + 1):
+                return False
+        return True
+    return False
+
+
+def _derives_from(prog, fi, e, src) -> bool:
+    """e is src, or a comprehension / copy over src."""
+    if T(e) == T(src):
+        return True
+    if isinstance(e, (ast.ListComp, ast.SetComp, ast.GeneratorExp)) and len(e.generators) == 1 and T(e.elt) in A.target_names(e.generators[0].target):
+        return _derives_from(prog, fi, e.generators[0].iter, src)
+    if isinstance(e, ast.Call) and A.callee_name(e) in ("set", "list", "sorted", "tuple", "frozenset") and e.args:
+        return _derives_from(prog, fi, e.args[0], src)
+    return False
+
+
+def r137(prog, chk):
+    """Spacing marks block kerning through a mark filtering set.  The set's members and the decision
+    'is there any spacing mark at all' are taken from the same value, and that value only holds exported glyphs
+    (GDEF classes come from the lib / feature file and still list skipped glyphs)."""
+    ix = prog.ix
+    fns = [ix.get_method(f"{KERN1}.KernFeatureWriter", "_makeKerningLookup", own=True), ix.get_func(f"{KERN2}:make_kerning_lookup")]
+    n = 0
+    for f in fns:
+        sinks = [c for c in calls_named(f, "makeGlyphClassDefinitions")]
+        need(sinks, f"cannot interpret {f.short}: the mark filtering class is not built here")
+        for c in sinks:
+            d_ = c.args[0] if c.args else None
+            need(isinstance(d_, ast.Dict) and len(d_.values) == 1, f"cannot interpret {f.short}: filtering class argument")
+            members = d_.values[0]
+            n += 1
+            ok = _restricted_to_glyphset(prog, f, members)
+            chk.ob("R13.7", key(f, "mark filtering set only lists exported glyphs"), ok, where(f, c), detail=T(members, 60),
+                   message=f"{f.short}: the mark filtering set `{T(members, 50)}` is not restricted to the writer's glyph set: skipped (non-exported) marks take part")
+            # the decision under which the set is used is an emptiness test of the very same value
+            tests = []
+            for g in may_conds(prog, f, c):
+                t = g.test
+                t = t.operand if isinstance(t, ast.UnaryOp) and isinstance(t.op, ast.Not) else t
+                tests.append(t)
+            same = False
+            for t in tests:
+                if isinstance(t, ast.Name) and isinstance(members, ast.Name) and t.id == members.id:
+                    da = {x.node for x in prog.reaching(f, t.id, t)}
+                    db = {x.node for x in prog.reaching(f, members.id, members)}
+                    same = same or da == db
+                elif not isinstance(t, ast.Name) and T(t) == T(members):
+                    same = True
+                # a test value that is itself restricted to the glyph set makes a later re-filtering a no-op
+                if not same and isinstance(t, (ast.Name, ast.Call, ast.BinOp)) and _restricted_to_glyphset(prog, f, t) and _derives_from(prog, f, members, t):
+                    same = True
+            chk.ob("R13.7", key(f, "IgnoreMarks / filtering-set decision is made on the members of the set"), same, where(f, c), detail=str([T(t, 40) for t in tests]),
+                   message=f"{f.short}: the choice between IgnoreMarks and a mark filtering set is made on {[T(t, 40) for t in tests]} but the set lists `{T(members, 50)}`: "
+                           f"when the two differ (skipped spacing marks) an empty filtering set is emitted and the lookup loses IgnoreMarks")
+    chk.minimum("R13.7", 4)
+
+
 MUTANTS = [
+    M("scripts guessed from skipped glyphs too (mutation scan k=246)", "ufo2ft/featureWriters/baseFeatureWriter.py", "BaseFeatureWriter.guessFontScripts",
+      "glyph.name not in glyphSet or glyph.unicodes is None", "glyph.name not in glyphSet and glyph.unicodes is None", rule="R13.4"),
+    M("marks of the filtering set not intersected with the glyph set (kern writer 1)", "ufo2ft/featureWriters/kernFeatureWriter.py", "KernFeatureWriter._makeKerningLookup",
+      "set(self.context.gdefClasses.mark or []) & set(self.context.glyphSet.keys())", "set(self.context.gdefClasses.mark or [])", rule="R13.7"),
+    M("filtering-set decision on another list than its members", "ufo2ft/featureWriters/kernFeatureWriter.py", "KernFeatureWriter._makeKerningLookup",
+      "{className: spacing}", "{className: [m for m in marks if self.context.font[m].width]}", rule="R13.7"),
+    M("already pruned spacing marks filtered once more", "ufo2ft/featureWriters/kernFeatureWriter.py", "KernFeatureWriter._makeKerningLookup",
+      "{className: spacing}", "{className: [m for m in spacing if m in self.context.glyphSet]}", kind="equiv"),
+    M("marks of the filtering set not intersected with the glyph set", "ufo2ft/featureWriters/kernFeatureWriter2.py", "make_kerning_lookup",
+      "set(context.gdefClasses.mark or []) & set(context.glyphSet.keys())", "set(context.gdefClasses.mark or [])", rule="R13.7"),
     M("static pre-processor drops the skip list", "ufo2ft/preProcessor.py", "BasePreProcessor.__init__",
       "_GlyphSet.from_layer(ufo, layerName, copy=not inplace, skipExportGlyphs=skipExportGlyphs)",
       "_GlyphSet.from_layer(ufo, layerName, copy=not inplace)", rule="R13.1"),
